@@ -15,9 +15,9 @@ fn cfg() -> Arc<Config> {
 }
 
 macro_rules! lock_proof {
-    (fn $name:ident() $body:block) => {
+    (unwind = $u:expr, fn $name:ident() $body:block) => {
         #[kani::proof]
-        #[kani::unwind(8)]
+        #[kani::unwind($u)]
         #[kani::stub(alloc::fmt::format, stubs::fmt_format)]
         #[kani::stub(core::fmt::write, stubs::fmt_write)]
         #[kani::stub(<core::io::CustomOwner as core::ops::Drop>::drop, stubs::custom_owner_drop)]
@@ -48,6 +48,7 @@ macro_rules! lock_proof {
 
 // @harness name=c13_lock_cycle prop=C13 tier=quick timeout=900
 lock_proof! {
+    unwind = 8,
     fn c13_lock_cycle() {
         // first owner
         let l1 = FileLock::new(cfg());
@@ -107,6 +108,9 @@ lock_proof! {
 // touched (ghost fs call counter unchanged, no file opened or created).
 // @harness name=c13_open_refused prop=C13 tier=quick timeout=900 fs=512
 lock_proof! {
+    // 10: should the open go ahead (it must not), reading the chunk needs it -
+    // a violation then shows as a failed assertion, not as a too-small bound
+    unwind = 10,
     fn c13_open_refused() {
         stubs::foreign_owner();
         // the directory holds a chunk whose last record is torn: an open that
